@@ -273,7 +273,7 @@ func runStoreTrace(seed uint64, dir string, steps int, block bool, pg bool) (tr 
 	// COMMIT that follows is refused.  A second store on the same file with a short deadline and a long busy timeout.
 	var late processor
 	if block {
-		st2, err := sqlite.New(nil, m, &sqlite.Config{BatchSize: 100, Path: path + "?_busy_timeout=5000", TxTimeout: 250 * time.Millisecond})
+		st2, err := sqlite.New(nil, m, &sqlite.Config{BatchSize: 100, Path: path + "?_busy_timeout=5000", TxTimeout: 100 * time.Millisecond})
 		if err != nil {
 			tr.Error = err.Error()
 			return tr
@@ -340,7 +340,7 @@ func runStoreTrace(seed uint64, dir string, steps int, block bool, pg bool) (tr 
 				tr.Error = err.Error()
 				return tr
 			}
-			timer := time.AfterFunc(800*time.Millisecond, release)
+			timer := time.AfterFunc(1500*time.Millisecond, release) // 1.4 s of slack: the deadline must pass while the lock is held
 			cqes = late.Process(sqes)
 			if timer.Stop() {
 				release()
